@@ -3,11 +3,12 @@ import math, os, re, subprocess
 from vcheck import Case, hx, flist, parse_vals, compare_lines, tokf
 
 PID = "C18"
-RULE = ("a case is one generator state (std::mt19937 seed, optionally with prescribed leading state words) -- or two generator states (seqn) -- and a sequence of "
+RULE = ("a case is one generator state (std::mt19937 seed, optionally with prescribed leading state words) -- or two generator states (seqn, seqh) -- and a sequence of "
         "sampler calls on it, whose user functions may be re-entrant (a density / CDF that makes a sampler call itself at every evaluation, on the same or on the other generator); "
+        "seqh: the sequence is run in a process that has called the library never before and every call of it is repeated alone in another pristine process from the generator states it found; "
         "non-trivial = a Metropolis call whose burn-in is not a multiple of its thinning (thinning >= 2), or a sequence in which at least two different "
-        "samplers are interleaved on one generator (between calls or inside a user function), or a rejection call that needed more than one trial, or a Poisson draw with mean > 500; "
-        "distinct by case text")
+        "samplers are interleaved on one generator (between calls or inside a user function), or a rejection call that needed more than one trial, or a Poisson draw with mean > 500, "
+        "or a history of at least two calls compared call by call with pristine processes; distinct by case text")
 LEVEL_TEXT = ("Theorems (Coq): number of uniforms consumed by every sampler as a function of its control flow (equal streams give equal outputs and equal residual "
               "streams by the type of the model); Sample_Metropolis(_2D) returns exactly `sample` elements for every thinning >= 1, every burn-in and no 32-bit overflow, "
               "every returned point lies in a bounded domain (the step: a candidate outside of the domain has acceptance probability exactly 0 for every density, also at a current point of "
@@ -15,7 +16,17 @@ LEVEL_TEXT = ("Theorems (Coq): number of uniforms consumed by every sampler as a
               "satisfies the acceptance rule y <= pdf(x); the Poisson sampler is Knuth's product rule for every lambda >= 0 (the exp(STEP) rescaling is transparent, with the "
               "p == 1 boundary stated); Sample_Uniform stays in [a,b]; for a target density that draws random numbers itself (re-entrant use: the samplers with the state "
               "threaded through every evaluation of the user function, section ModelSt) Sample_Metropolis(_2D) still returns exactly `sample` elements and stays in a bounded domain, and with a pure "
-              "function the re-entrant samplers are the plain ones. NOT theorems: the distributional clauses (Kolmogorov-Smirnov, chi-square, moments) — they are "
+              "function the re-entrant samplers are the plain ones (the 2D containment with a re-entrant density: C18_metropolis_2d_in_domain_reentrant). HISTORIES (all interleavings of samplers on one "
+              "generator, any length, any number type; run_calls is the extracted function that computes the model's answer to every `seq` case): every answer of a history is the answer of that call alone "
+              "on the generator state it found (C18_history_every_call, C18_history_composition), two different histories that leave the generator in the same state are followed by the same answer and the "
+              "same state (C18_history_same_state_same_answer), the stream consumed is the sum of the calls' costs (C18_history_consumption, _fixed), the sample count and the containment of Metropolis / "
+              "inverse-transform calls hold at every position of every history (C18_history_metropolis_count, _2d_count, C18_history_metropolis_in_domain, C18_history_inverse_transform_in_range), the vector "
+              "overload of Sample_Poisson is the history of single calls (C18_poisson_vector_is_history). Inverse_Transform_Sampling returns a point between xMin and xMax for every cdf and every generator "
+              "state (C18_inverse_transform_in_range: Find_Root's clamp keeps every iterate in the bracket); Sample_Gauss is truncated at 10 sqrt(2) sigma (C18_sample_gauss_truncated). Values inside the support: a Metropolis chain (1D/2D, bounded/unbounded, every non-negative density) that is at a point of positive "
+              "density never moves to a point of density zero, so with a start point inside the support every returned sample lies in the support (C18_metropolis_stays_in_support, _2d_; a start point of density "
+              "zero -- 0/0 and x/0 in IEEE arithmetic -- is NOT covered by a theorem, it is tested); detailed balance also on a bounded 2D domain (C18_acceptance_detailed_balance_2d_bounded). These history theorems are "
+              "about the model, in which no sampler has state of its own; that the LIBRARY has none (no static, no cache between calls) is checked, not proved: seqh cases compare every call of a history "
+              "with a pristine process, with near-equal arguments in consecutive calls and decision values on a ladder 1e-16..1e-3 around the thresholds. NOT theorems: the distributional clauses (Kolmogorov-Smirnov, chi-square, moments) — they are "
               "tested on the implementation with fixed seeds at significance 1e-9 (S4); that std::mt19937/generate_canonical produce the stream handed to the model is "
               "checked by the correspondence (a pure-Python MT19937 computes the uniforms of every case) and by the consumption count/next raw output comparison.")
 LEVEL_NOTE = ("Coq 8.16.1; theorems over R use the standard library's real-number axioms, counting theorems are axiom-free; std::mt19937 + std::uniform_real_distribution are "
@@ -215,11 +226,69 @@ def seqn_case(seed, seed2, ops, n_main, n_aux, tags):
     return Case(f"seqn {seed} 0 {flist(us)} {seed2} {flist(vs)} {len(ops)} " + " ".join(ops), tags)
 
 
+def seqh_case(seed, seed2, ops, n_main, n_aux, tags, state_raws=None):
+    """a history of calls compared call by call with pristine processes (syntax of seqn; the first generator may have prescribed leading state words)"""
+    state = [untemper(r) for r in state_raws[:624]] if state_raws else None
+    g = MT(seed, state); h = MT(seed2)
+    us = [g.canon() for _ in range(n_main)]; vs = [h.canon() for _ in range(n_aux)]
+    st = f"{len(state)} " + " ".join(str(w) for w in state) if state else "0"
+    return Case(f"seqh {seed} {st} {flist(us)} {seed2} {flist(vs)} {len(ops)} " + " ".join(ops), tags)
+
+
+def canon_of(a, b):
+    r = (float(a) + float(b) * 4294967296.0) / 18446744073709551616.0
+    return math.nextafter(1.0, 0.0) if r >= 1.0 else r
+
+
+LADDER = [10.0 ** -e for e in range(16, 2, -1)]           # relative distances 1e-16 .. 1e-3
+
+
+def near(x, rng, p_same=0.15):
+    """x itself, or a neighbour at a relative distance of the ladder (at least one ulp), either side"""
+    if rng.random() < p_same or x != x or math.isinf(x): return x
+    d = rng.choice(LADDER); sg = rng.choice([-1.0, 1.0])
+    y = x * (1.0 + sg * d) if x != 0.0 else sg * d * 1e-300
+    if y == x: y = math.nextafter(x, math.copysign(math.inf, sg * (x if x != 0.0 else 1.0)))
+    return y
+
+
+def poisson_rescale(p, left):
+    """the rescaling loop of Sample_Poisson, in the arithmetic of the library (math.exp is libm's exp)"""
+    while p < 1.0 and left > 0.0:
+        if left > 500.0: p = p * math.exp(500.0); left -= 500.0
+        else: p = p * math.exp(left); left = 0.0
+    return p, left
+
+
+def poisson_craft(rng, lam, delta, stepdiv):
+    """Raw generator outputs for ONE Sample_Poisson(lam) call on a prescribed generator state: the uniforms are small enough that the call
+    ends within a few dozen draws (mean log-step max(1, lam/stepdiv), capped), and at the first opportunity one uniform is chosen so that the
+    running product p lands at 1 + delta, i.e. at a relative distance delta from the threshold of `while(p > 1)` (delta = None: no aiming).
+    The call is followed in double arithmetic, so the number of draws is the one the library makes."""
+    left = lam; p = 1.0; raws = []; aimed = delta is None; step = min(20.0, max(1.0, lam / stepdiv))
+    for _ in range(1200):
+        pair = None
+        if not aimed:
+            F = 1.0; l = left
+            while l > 0.0:
+                if l > 500.0: F *= math.exp(500.0); l -= 500.0
+                else: F *= math.exp(l); l = 0.0
+            if math.isfinite(p * F):
+                t = (1.0 + delta) / (p * F)
+                if 1e-3 < t < 1.0: pair = raws_for(t); aimed = True
+        if pair is None: pair = raws_for(math.exp(-rng.expovariate(1.0 / step)))
+        raws += list(pair)
+        p = p * canon_of(*pair)
+        p, left = poisson_rescale(p, left)
+        if not (p > 1): break
+    return raws
+
+
 def parse_seq(line, full=False):
     """seq: (seed, state, us, ops); with full=True (seqn lines) also (seed2, vs).
     ops are tuples; ("onaux", op) and ("nest", same, red, inner, outer) are recursive."""
     t = line.split(); k = 1
-    two = t[0] == "seqn"
+    two = t[0] in ("seqn", "seqh")
     seed = int(t[k]); k += 1
     ns = int(t[k]); k += 1
     state = [int(x) for x in t[k:k + ns]]; k += ns
@@ -581,6 +650,75 @@ def generate(rng, tier):
             if rng.random() < 0.3: o = "onaux " + o; p, q = q, p
             ops.append(o); nm += p; na += q
         cs.append(seqn_case(seed(), seed(), ops, nm + 4, na + 4, ("reentrant" if any("nest" in o for o in ops) else "two-generators",)))
+    # K. HISTORIES AGAINST PRISTINE PROCESSES (seqh lines): several calls in one process -- on one generator, on two generators, the same
+    #    sampler again and again -- whose arguments are EQUAL or NEARLY EQUAL (relative distances 1e-16 .. 1e-3, either side, around round
+    #    values: whatever a sampler keeps between calls keyed on its arguments, exactly or after rounding, is hit here), each answer and the
+    #    states left behind compared with those of a process that has made no call before.  The decision points of the samplers are aimed at
+    #    on the same ladder: the running product of Sample_Poisson lands at 1 + delta (the threshold of `while(p > 1)`), the height of a
+    #    rejection trial at pdf(x) (1 + delta), delta = +-1e-16 .. +-1e-3, on prescribed generator states.
+    DELTAS = [sg * d for d in LADDER for sg in (-1.0, 1.0)]
+    ROUND_LAMS = [0.5, 1.0, 2.5, 3.0, 10.0, 20.0, 64.0, 100.0, 128.0, 250.0, 499.0, 500.0, 500.0, 512.0, 750.0, 1000.0, 1500.0, 2048.0, 0.1, 0.7, 499.999, 1000.5]
+    def natural(lam): return int(lam + 12 * math.sqrt(lam) + 40)
+    for _ in range(R(130, 1500)):
+        base = rng.choice(ROUND_LAMS) if rng.random() < 0.85 else float(rng.randint(1, 1200)) / rng.choice([1, 2, 4, 8, 10])
+        K = rng.randint(2, 6); ops = []; raws = []; nm = na = 0; round_last = rng.random() < 0.6
+        for j in range(K):
+            lam = base if (j % 2 == 1 and round_last) or (j == K - 1 and round_last) else near(base, rng)
+            if rng.random() < 0.1: lam = rng.choice(ROUND_LAMS)                                # an unrelated mean in between
+            r = rng.random()
+            if r < 0.3:                                                                         # on the other generator (seeded state)
+                ops.append(f"onaux poisson {hx(lam)}"); na += natural(lam)
+            elif r < 0.42 and lam < 300:                                                        # the vector overload: two near-equal means in one call
+                l2 = near(lam, rng); ops.append(f"poissonv {flist([l2, lam])}")
+                for l in (l2, lam): raws += poisson_craft(rng, l, rng.choice(DELTAS), rng.choice([20, 50])); nm += natural(l)
+            else:
+                ops.append(f"poisson {hx(lam)}"); raws += poisson_craft(rng, lam, rng.choice(DELTAS + [None]), rng.choice([20, 50, 100])); nm += natural(lam)
+        cs.append(seqh_case(rng.randrange(2 ** 32), seed(), ops, nm + len(raws) // 2 + 4, na + 4, ("history", "pristine", "poisson-near"), state_raws=raws))
+    # every other sampler: near-equal limits / widths / envelopes / domains in consecutive calls, on one and on two generators
+    def near_op(name, base):
+        """(op text, uniforms bound, constant consumption?) of sampler `name` with the arguments `base` perturbed on the ladder"""
+        if name == "uniform": a, b = base; return f"uniform {hx(near(a, rng))} {hx(near(b, rng))}", 1
+        if name == "gauss": a, b = base; return f"gauss {hx(near(a, rng))} {hx(near(b, rng))}", 1
+        if name == "invt": nm_, = base; fx, _, a, b = TC[nm_]; return f"invt {hx(near(a, rng))} {hx(near(b, rng))} {fx}", 1
+        if name == "rej":
+            nm_, top = base; fx, _, (a, b) = T1[nm_]
+            return f"rej {hx(near(a, rng))} {hx(near(b, rng))} {hx(near(top * 1.002, rng))} {fx}", 2 * 90
+        if name == "rej2":
+            fx, _, _, box, _, _ = T2["xpy"]; return f"rej2 {' '.join(hx(near(v, rng)) for v in box)} {hx(near(2.004, rng))} {fx}", 3 * 90
+        if name == "metro":
+            nm_, sg, (s_, th_, b_) = base; fx, _, sup = T1[nm_]
+            return f"metro {hx(near(sg, rng))} {s_} {th_} {b_} {flist([near(v, rng) for v in sup] if sup else [])} {fx}", 1 + 2 * imax32(s_, th_, b_)
+        nm_, sg, (s_, th_, b_) = base; fx, _, _, box, _, _ = T2[nm_]
+        return f"metro2 {hx(near(sg, rng))} {hx(near(0.5 * sg, rng))} {s_} {th_} {b_} {flist([near(v, rng) for v in box] if box else [])} {fx}", 2 + 3 * imax32(s_, th_, b_)
+    def near_base(name):
+        if name == "uniform": a = rng.choice([0.0, -3.5, 1.0, 100.0, 1e-3, -1e6]); return (a, a + rng.choice([1.0, 0.5, 10.75, 1e3]))
+        if name == "gauss": return (rng.choice([0.0, 1.5, -100.0, 1e4]), rng.choice([1.0, 0.5, 2.5, 1e-3, 300.0]))
+        if name == "invt": return (rng.choice(sorted(TC)),)
+        if name == "rej": nm_ = rng.choice(["tri", "tgauss", "sin"]); return (nm_, 2.0 if nm_ == "tri" else 1.0)
+        if name == "rej2": return ()
+        if name == "metro": return (rng.choice(["gauss", "tgauss", "tri", "sin", "bimodal"]), rng.choice([0.5, 1.0, 3.0]), triple(16))
+        return (rng.choice(["xpy", "g2", "g2box"]), rng.choice([0.5, 1.0]), triple(12))
+    for _ in range(R(80, 1000)):
+        names = [rng.choice(["uniform", "gauss", "invt", "rej", "rej2", "metro", "metro2"]) for _k in range(rng.choice([1, 1, 2]))]
+        bases = {n_: near_base(n_) for n_ in names}
+        K = rng.randint(2, 5); ops = []; nm = na = 0
+        for j in range(K):
+            n_ = rng.choice(names); o, m = near_op(n_, bases[n_])
+            if rng.random() < 0.3: ops.append("onaux " + o); na += m
+            else: ops.append(o); nm += m
+        cs.append(seqh_case(seed(), seed(), ops, nm + 4, na + 4, ("history", "pristine", "near-arguments")))
+    # rejection: the height of the first trial at the ladder around pdf(x), after near-equal requests made on the other generator
+    for _ in range(R(30, 400)):
+        nm_ = rng.choice(["tri", "tgauss", "sin"]); fx, _, (a, b) = T1[nm_]; top = 2.0 if nm_ == "tri" else 1.0
+        ym = top * rng.choice([1.0, 1.5, 4.0]); e = fparse(fx.split(), 0)[0]
+        ops = ["onaux " + near_op("rej", (nm_, ym / 1.002))[0] for _k in range(rng.randint(1, 3))]
+        raws = []
+        for _k in range(rng.randint(1, 3)):
+            pair = raws_for(rng.random()); x = canon_of(*pair) * (b - a) + a; f = feval(e, x); t = f * (1.0 + rng.choice(DELTAS)) / ym
+            raws += list(pair) + list(raws_for(t) if 0.0 < t < 1.0 else raws_for(rng.random()))
+        ops.append(f"rej {hx(a)} {hx(b)} {hx(ym)} {fx}")
+        if rng.random() < 0.5: ops.append(ops[-1])
+        cs.append(seqh_case(rng.randrange(2 ** 32), seed(), ops, 2 * 2 * 200, 3 * 2 * 90 + 4, ("history", "pristine", "rej-threshold"), state_raws=raws))
     # F. (sample, thinning, burn_in) grid on 0..200, thinning >= 1, 1D/2D, bounded/unbounded: count, consumption, domain, determinism
     if big:
         gs = [0, 1, 2, 3, 5, 10, 37, 100, 200]; gt = [1, 2, 3, 4, 5, 7, 10, 16, 50, 99, 100, 200]; gb = [0, 1, 2, 3, 4, 5, 6, 7, 9, 10, 11, 15, 16, 17, 49, 50, 51, 99, 100, 101, 150, 199, 200]
@@ -666,7 +804,8 @@ def generate(rng, tier):
 def compare(c, io, mo, tol):
     op = c.line.split(None, 1)[0]
     if op in ("law", "lawh"): return (mo == "NOMODEL"), False, ("" if mo == "NOMODEL" else "model driver: " + mo[:60])
-    if op in ("seq", "seqn") and io and not io.startswith(("EXIT", "CRASH", "SANITIZER", "TIMEOUT", "HARNESSERR")):
+    if op == "seqh" and io: io = io.split(" FRESH ")[0]      # the answers of the pristine processes are judged in predicates()
+    if op in ("seq", "seqn", "seqh") and io and not io.startswith(("EXIT", "CRASH", "SANITIZER", "TIMEOUT", "HARNESSERR")):
         io = io.rsplit(None, 1 if op == "seq" else 2)[0]          # the next raw output(s) are checked against the Python MT19937 in predicates()
     return compare_lines(io, mo, tol)
 
@@ -676,6 +815,7 @@ def nontrivial(c, io):
     if io.startswith(("CRASH", "SANITIZER", "TIMEOUT", "HARNESSERR")): return False
     if t == "mgrid":
         p = c.line.split(); return int(p[3]) >= 2 and int(p[4]) % int(p[3]) != 0
+    if t == "seqh": return len(parse_seq(c.line)[3]) >= 2 and " FRESH " in io
     if t == "seqn":
         def names(o): return names(o[1]) if o[0] == "onaux" else ({"nest"} | names(o[3]) | names(o[4]) if o[0] == "nest" else {o[0]})
         ops = parse_seq(c.line)[3]; ns = set()
@@ -827,15 +967,38 @@ def law_predicates(c, io):
     return out
 
 
-def replay_seq(us, ops, v):
+def knuth_exact(us, lam):
+    """Knuth's rule decided in exact rational arithmetic where the logarithms cannot tell: Q = u_1 ... u_j * exp(lambda) against 1, exp(lambda) taken
+    as the product of libm's exp over the rescaling stages (each within one ulp).  The library's p carries one rounding per multiplication and
+    the error of each exp: a priori |p/Q - 1| <= (j + 2 stages + 4) 2^-52.  Returns True (Q <= 1: stop), False (continue) or None (not decided)."""
+    from fractions import Fraction
+    E = Fraction(1); left = lam; st = 0
+    while left > 0.0:
+        if left > 500.0: E *= Fraction(math.exp(500.0)); left -= 500.0
+        else: E *= Fraction(math.exp(left)); left = 0.0
+        st += 1
+    Q = E
+    for x in us: Q *= Fraction(x)
+    tol = Fraction(len(us) + 2 * st + 4, 2 ** 52)
+    if abs(Q - 1) <= tol: return None
+    return Q <= 1
+
+
+def replay_seq(us, ops, v, vs=None):
     """Independent replay of a sequence on the uniforms of the case: returns (violations, consumed or None, expects_exit).
-    v: the implementation's output values (None when it exited)."""
-    out = []; k = 0; pos = 0        # k: uniforms consumed; pos: position in v
+    v: the implementation's output values (None when it exited).  With vs (the uniforms of the second generator) calls marked
+    `onaux` are replayed on that stream; consumed is then the pair (first generator, second generator)."""
+    out = []; pos = 0        # pos: position in v
+    streams = [us, vs if vs is not None else []]; ks = [0, 0]; gen = 0
     def take(m):
         nonlocal pos
         if v is None: return None
         r = v[pos:pos + m]; pos += m; return r if len(r) == m else None
+    k = 0
     for o in ops:
+        ks[gen] = k; gen = 0
+        while o[0] == "onaux": o = o[1]; gen ^= 1
+        us = streams[gen]; k = ks[gen]        # k: uniforms consumed from the generator of this call
         name = o[0]
         if name == "uniform":
             a, b = o[1], o[2]; u = us[k]; k += 1
@@ -873,8 +1036,10 @@ def replay_seq(us, ops, v):
                 s = 0.0; ok = True; amb = False
                 for j, lg in enumerate(logs):
                     s += lg; slack = 1e-9 * (L + 1.0)
-                    if abs(s + L) <= slack: amb = True; break
-                    stopped = s <= -L
+                    if abs(s + L) <= slack:
+                        stopped = knuth_exact(us[k:k + j + 1], L)         # within 1e-9 of the threshold: exact rational arithmetic
+                        if stopped is None: amb = True; break
+                    else: stopped = s <= -L
                     if stopped != (j == kk): ok = False; break
                 if not ok and not amb: out.append(("poisson:knuth", f"Sample_Poisson({lam}) = {kk} is not min{{k : u_1...u_(k+1) <= exp(-lambda)}} on the uniforms drawn (log-product {s!r} after {j+1} draws)"))
                 if amb: return out, None, False
@@ -951,7 +1116,8 @@ def replay_seq(us, ops, v):
                 if bad: out.append((name + ":domain", f"{name}: sample {bad[0]} outside the bounded domain {dom}"))
             if thin == 1 and burn + sample < 2 ** 32 and cnt == sample and cnt > 0:
                 out += metro_steps(name, d2, us, k - need, (s1, s2) if d2 else (s1,), burn, dom, e, pts)
-    return out, k, False
+    ks[gen] = k
+    return out, (k if vs is None else (ks[0], ks[1])), False
 
 
 def metro_steps(name, d2, us, k0, sigmas, burn, dom, e, pts):
@@ -1161,12 +1327,57 @@ def seqn_predicates(c, io):
     return out
 
 
+def op_name(o):
+    while o[0] == "onaux": o = o[1]
+    return o[4][0] if o[0] == "nest" else o[0]
+
+
+def seqh_predicates(c, io):
+    """a history of calls in a process that has called nothing before: the clauses of seqn, the acceptance / Knuth / range rules of every call on
+    the uniforms it drew, and -- equal generator states give identical outputs and leave equal states behind -- every answer against the
+    answer of a pristine process to the same call from the same generator states"""
+    if " FRESH " not in io: return []                # the history terminated the process: decided by the comparison with the model
+    main, fresh = io.split(" FRESH ", 1)
+    out = seqn_predicates(c, main)
+    seed, state, us, ops, seed2, vs = parse_seq(c.line, True)
+    if not any(has_nest(o) for o in ops) and not any(sig.endswith(":shape") for sig, _ in out):
+        viol, _k, expects_exit = replay_seq(us, ops, parse_vals(main)[:-7], vs)
+        out += [x for x in viol if x not in out]
+        if expects_exit: out.append(("+".join(sorted({op_name(o) for o in ops})) + ":guard", "on the uniforms of the case a guard terminates the process; the implementation returned"))
+    t = fresh.split()
+    try:
+        K = int(t[0]); flags = [int(x) for x in t[1:1 + K]]; k = 1 + K; diffs = {}
+        while k < len(t):
+            if t[k] != "DIFF": raise ValueError
+            j = int(t[k + 1])
+            if t[k + 2] == "STATUS": diffs[j] = ("status", t[k + 3]); k += 4
+            else:
+                n = int(t[k + 4]); diffs[j] = (int(t[k + 2]), int(t[k + 3]), " ".join(t[k + 5:k + 5 + n])); k += 5 + n
+        if K != len(ops): raise ValueError
+    except (ValueError, IndexError):
+        return out + [("seqh:shape", "the pristine-process section of the output is malformed")]
+    for j, f in enumerate(flags):
+        if f == 1: continue
+        nm = op_name(ops[j]); d = diffs.get(j)
+        if d and d[0] == "status":
+            out.append((nm + ":history-independence", f"call {j + 1} of the history ({nm}) returned, the same call from the same generator states in a process that has made no call before ended with {d[1]}"))
+        else:
+            what = []
+            if d and not d[0]: what.append("the state of its generator afterwards differs")
+            if d and not d[1]: what.append("the state of the other generator afterwards differs")
+            vals = [str(x) for x in parse_vals(d[2])] if d else []
+            out.append((nm + ":history-independence", f"call {j + 1} of the history ({nm}) depends on the calls made before it in the process: from the same generator states a process that has made "
+                        f"no call before returns {' '.join(vals)[:200]}" + ("; " + ", ".join(what) if what else "") + " (equal generator states must give identical outputs and leave equal states behind)"))
+    return out
+
+
 def predicates(c, io):
     out = []
     if io.startswith(("CRASH", "SANITIZER", "TIMEOUT", "HARNESSERR")): return out        # reported generically
     kind = c.line.split(None, 1)[0]
     if kind in ("law", "lawh"): return law_predicates(c, io)
     if kind == "seqn": return seqn_predicates(c, io)
+    if kind == "seqh": return seqh_predicates(c, io)
     if kind == "mgrid":
         t = c.line.split(); sample, thin, burn, dim, bounded = (int(x) for x in t[2:7])
         if io.startswith("EXIT"): return [("mgrid:exit", "Sample_Metropolis terminated the process")]
